@@ -6,6 +6,7 @@ SizesQ == {10}
 FailAll == {"check", "process"}
 FailNone == {}
 LimitsE == {[num |-> 100, size |-> 100000], [num |-> 2, size |-> 100000]}
+LimitsE1 == {[num |-> 100, size |-> 100000]}
 LimitsS2 == {[num |-> 100, size |-> 35], [num |-> 100, size |-> 60]}
 \* byte limits that two small events fit but a big one does not fit together with them
 LimitsS == {[num |-> 100, size |-> 35], [num |-> 100, size |-> 45], [num |-> 100, size |-> 60], [num |-> 2, size |-> 45]}
